@@ -1,9 +1,11 @@
 #!/bin/sh
-# dev.sh: (re)build the harness in a persistent dev scratch (/tmp/vb) for quick iteration.
+# dev.sh: (re)build the harness in a persistent dev scratch ($DEVDIR, default /tmp/vb) for quick iteration.
+# Not used by any registered check.
 set -e
+D=${DEVDIR:-/tmp/vb}
 export GOFLAGS=-mod=mod GOPROXY=off GOSUMDB=off GOTOOLCHAIN=local
-mkdir -p /tmp/vb && rm -rf /tmp/vb/sim /tmp/vb/repo && cp -r /verif/sim /tmp/vb/sim && mkdir /tmp/vb/repo
-(cd /repo && git ls-files | grep -v '_test.go$' | grep -v '^examples/' | tar -c -T - | tar -x -C /tmp/vb/repo)
-/verif/bin/instrument -repo /tmp/vb/repo -hooks /verif/hooks
-cd /tmp/vb/sim && cp go.mod.tmpl go.mod && cat /repo/go.sum go.sum.extra > go.sum
-rm -f /tmp/vb/sim.test; go1.26.8 test -c -tags verif -trimpath -o /tmp/vb/sim.test ./run
+mkdir -p $D && rm -rf $D/sim $D/repo && cp -r /verif/sim $D/sim && mkdir $D/repo
+(cd /repo && git ls-files | grep -v '_test.go$' | grep -v '^examples/' | tar -c -T - | tar -x -C $D/repo)
+/verif/bin/instrument -repo $D/repo -hooks /verif/hooks
+cd $D/sim && cp go.mod.tmpl go.mod && cat /repo/go.sum go.sum.extra > go.sum
+rm -f $D/sim.test; go1.26.8 test -c -tags verif -trimpath -o $D/sim.test ./run
